@@ -120,7 +120,10 @@ def build_df(tbl, vals, variant):
 def build_table(tbl, vals, variant):
     """build_df + the row labels a sorted / sampled / filtered table carries (half of the cases: labels that are not
     0..N-1 in order).  The particle order is the table's row order, whatever the labels."""
-    return motlutil.vary_index(build_df(tbl, vals, variant), variant // 3)
+    # k is kept in 0..3: only the row-label modes of the helper.  Its int64 identifier-column mode (k // 4 odd) is not
+    # used here - C01 quantifies over float64 tables, and the token values include integer-valued floats beyond the
+    # int64 range (e.g. 9e30), which that mode would overflow.
+    return motlutil.vary_index(build_df(tbl, vals, variant), (variant // 3) % 4)
 
 
 def order_class(order):
